@@ -251,7 +251,10 @@ CLAIMED['C02'] = dict(
         "dictionary per parameter every query sequence returns the uncached value (the shared dictionary is refuted). The float instance of "
         "the same definitions runs against real logpdf()/jump() calls of all families in as-built, adapted, reset and std-reassigned states; "
         "a failing input is searched by feeding jump() a quantile grid (push-forward law vs reported density, Hastings factor vs law ratio).",
-   note=LAW_NOTE + "Birth densities, the eigen-direction choice and the bounded eigenvector's box intersections are tied by correspondence only.",
+   note=LAW_NOTE + "Birth densities, the eigen-direction choice and the bounded eigenvector's box intersections are tied by correspondence only. "
+        "Source tie (Props/C02_src.v): the public wrappers BaseProposal.jump and BaseProposal.logpdf as written in /repo's base.py today are "
+        "translated on every run (tools/py2coq.py) to the condition under which each hands over to the family's _jump / _logpdf, and proved "
+        "equal to each other and to the model's clock for every state: a density is reported exactly for the moves that are drawn.",
    technique="Coq proof over Reals (interval arithmetic of rounding cells with Flocq, telescoping sums, Coquelicot series, trigonometric identities) + vm_compute correspondence of the float instance",
    ref="DESIGN.md section 3, C02")
 
